@@ -354,6 +354,29 @@ def nested_term(depth, kind="t("):
     return [kind] * depth + ["n3ff0000000000000:1"] + [close] * depth
 
 
+def mixed_nested(depth, rng=None):
+    """containers of every kind nested `depth` deep: tuple > array > struct (as value under a keyword key) > table > bracket tuple > ...;
+    with `rng`, every level also gets a few atom siblings"""
+    kinds = ["t(", "a[", "d{", "m{", "t["]
+    close = {"(": ")", "[": "]", "{": "}"}
+    out, closers = [], []
+    for i in range(depth):
+        k = kinds[i % len(kinds)]
+        out.append(k)
+        if rng is not None and rng.chance(1, 2):
+            if k[1] == "{":
+                out += ["k" + bytes([97 + rng.below(26)]).hex() * 2, value_term(rng, 0, False)[0]]
+            else:
+                out += value_term(rng, 0, False)
+        if k[1] == "{":
+            out.append("k" + b"key".hex())
+        closers.append(close[k[1]])
+    out.append("s" + b"leaf".hex())
+    for c in reversed(closers):
+        out.append(c)
+    return out
+
+
 def schedule_solo(rng, n):
     """API-sequence fuzz: raw flushes and error taking without draining first (queued values are dropped, so the result depends on the
     schedule: compared with the model and checked for crashes only, never across schedules)"""
